@@ -300,8 +300,22 @@ fn reference_simple(glob: &str, o: &GOpts) -> Option<Hir> {
                 if o.ci {
                     c.case_fold_simple();
                 }
+                let has_sep = c.ranges().iter().any(|r| r.start() <= b'/' && b'/' <= r.end());
+                if o.litsep && has_sep {
+                    // whether a class that lists `/` itself (or spans it with a
+                    // range) may match a literal separator is not documented:
+                    // outside the reference's subset
+                    return None;
+                }
                 if neg {
                     c.negate();
+                    if o.litsep {
+                        // "a literal / is required to match a path separator":
+                        // what the class merely does not exclude is not literal
+                        let mut sep = ClassBytes::new([ClassBytesRange::new(b'/', b'/')]);
+                        sep.negate();
+                        c.intersect(&sep);
+                    }
                 }
                 parts.push(Hir::class(Class::Bytes(c)));
                 i = j;
